@@ -214,6 +214,15 @@ def scenarios(draw, cfg):
         if step is not None:
             steps.append(step)
             m.apply(step)
+    if cfg.get("long", True) and draw(st.integers(0, 14)) == 0:
+        # a long history: ten and more generations of one root (two-digit generation numbers, chains with >= 10 entries)
+        root = _pick(draw, m.roots) if m.roots else ""
+        for i in range(draw(st.integers(9, 12))):
+            step = {"op": "create", "root": root, "formats": draw(cfg.get("formats", gen.formats())), "flags": []}
+            if cfg.get("extra") is not None:
+                step["extra"] = []
+            steps.append(step)
+            m.apply(step)
     scn = {"root": rootname, "tree": tree, "steps": steps}
     if cfg.get("spell", True):
         # how the root folder is typed in every command of this scenario: absolute, with a trailing separator,
